@@ -1,9 +1,68 @@
-import Driver.Proto
+import Driver.MeshOpsDrv
+import PolyVerif.Model.MeshSpec
 
 namespace Driver.C03
+open Driver.MeshIO PolyVerif PolyVerif.Mesh PolyVerif.Mesh.MeshVal PolyVerif.Gen
+
+def showResults (op : String) : Option (List MV) → String
+  | none => "rejected"
+  | some ms =>
+    if op == "split" then " ".intercalate (toString ms.length :: ms.map showMesh)
+    else " ".intercalate (ms.map showMesh)
+
+def pB : Parser MB := fun ts => do let (m, ts) ← pMesh ts; pure (toBitsMesh m, ts)
+
+def unbits (p : PB) : P := p.map Float.ofBits
+def zeroB (w : Nat) : PB := pBits (zeroP w)
+
+/-- the theorem predicates of Props/C03 evaluated on (input, implementation output) -/
+def oracle (name : String) (ts : List String) : Option Bool :=
+  match name with
+  | "unweld_spec" => do
+      let (m, ts) ← pB ts; let (o, _) ← pB ts
+      pure (decide (UnweldSpec m o))
+  | "removeunref_spec" => do
+      let (m, ts) ← pB ts; let (o, _) ← pB ts
+      pure (decide (RemoveUnrefSpec m o ∧ AllReferenced o))
+  | "flip_spec" => do
+      let (m, ts) ← pB ts; let (o, _) ← pB ts
+      pure (decide (FlipSpec m o))
+  | "topointcloud_spec" => do
+      let (m, ts) ← pB ts; let (o, _) ← pB ts
+      pure (decide (ToPointCloudSpec m o))
+  | "append_spec" => do
+      let (a, ts) ← pB ts; let (b, ts) ← pB ts; let (o, _) ← pB ts
+      pure (decide (AppendSpec zeroB a b o))
+  | "frame_spec" => do
+      let (w, ts) ← pNat ts; let (nm, ts) ← pTok ts
+      let (m, ts) ← pB ts; let (o, _) ← pB ts
+      pure (decide (FrameSpec ⟨w, nm⟩ m o))
+  | "filter_spec" => do
+      let (w, ts) ← pNat ts; let (nm, ts) ← pTok ts; let (thr, ts) ← pFloat ts
+      let (m, ts) ← pB ts; let (o, _) ← pB ts
+      pure (decide (FilterSpec ⟨w, nm⟩ (fun x => firstLt thr (unbits x)) m o ∧ AllReferenced o))
+  | "same_mesh" => do
+      let (m, ts) ← pB ts; let (o, _) ← pB ts
+      pure (decide (m = o))
+  | "crop_spec" => do
+      let (nm, ts) ← pTok ts; let (c, ts) ← pV3 ts; let (e, ts) ← pV3 ts
+      let (m, ts) ← pB ts; let (o, _) ← pB ts
+      let box : geometry.AABB Float := ⟨c, e⟩
+      let inside : PB → Bool := fun x => match v3? (unbits x) with | some v => box.Contains v | none => false
+      pure (decide (CropSpec ⟨3, nm⟩ inside m o))
+  | _ => none
 
 /-- one request -> one answer line; `none` = unknown op / malformed -/
-def handle (_op : String) (_args : List String) : Option String := none
+def handle (op : String) (args : List String) : Option String :=
+  if op.startsWith "c03.holds." then
+    let name := (op.drop 10).toString
+    match oracle name args with
+    | some b => some (boolStr b)
+    | none => some "false"      -- an output that does not even parse as a mesh violates the contract
+  else if op.startsWith "c03.op." then
+    let name := (op.drop 7).toString
+    (applyOp name args).map (showResults name)
+  else none
 
 end Driver.C03
 
